@@ -21,7 +21,7 @@ ASSUME = [
     "shipped schemas = /repo/schemas/*.json; generated schemas = output of /repo's vespertide-schema-gen built from the current working tree (cargo --frozen, target dir .cache/target_repo), both translated by tools/schema2coq.py (syntactic, trusted; unknown keywords make it fail)",
     "the validation relation `valid` (coq/serde/Model/SchemaOf.v) is tied to python-jsonschema 4.26 Draft2020-12 on every document of every run (K-schema, compared inside Coq)",
     "proved for ALL values / documents (no sampling): valid_encode_* (what the serialisers write validates), decode_of_valid_table / _plan (a document without repeated members that validates under the strict reading of the schema - `format` asserted as the Rust width of the field, 'integer' excluding 1.0: the complement of the class C15-integer-width-not-in-schema, Model/SchemaStrict.v - is accepted by the parser model), both transported to the shipped schema terms on every run through doc_eqb_eq; fuel irrelevance of the validator; the class refutations. The strict reading itself has no external reference implementation (python-jsonschema does not know uint32): K-schema ties the plain validator, the strict one differs by two stated clauses",
-    "JSON / YAML *text* layer: not modelled in Gallina (Json.v starts at parsed values); it is tied by test only: the K-serde text round trips, and the real-binary text-layer stream (.json model / migration files with surrogate-pair escapes, \\u0000-class escapes, raw DEL / C1 / U+2028, \\/ and numeric defaults at the i64 / u64 / f64 boundaries, written with ensure_ascii on and off) where the binary must accept a file iff python-jsonschema accepts it and serde_json parses it",
+    "JSON / YAML *text* layer: not modelled in Gallina (Json.v starts at parsed values); it is tied by test only: the K-serde text round trips, and the real-binary text-layer stream (.json model / migration files with surrogate-pair escapes, \\u0000-class escapes, raw DEL / C1 / U+2028, \\/ and numeric defaults at the i64 / u64 / f64 boundaries, written with ensure_ascii on and off) where the binary must accept a file iff python-jsonschema accepts it and the Gallina parser model decodes it (hserde's own serde_json / serde_yaml parses of the same text are recorded as observations only: they are built from the same crates as the binary)",
     "real-binary stream: `vespertide init`, `new [--format]` under every modelFormat and `revision` under every migrationFormat; YAML files are read back with the tool's own serde_yaml (hserde parse yaml2json) before schema validation; the empty `new` template is completed with an id primary-key column before the load test",
     "documents that repeat a member are outside the quantifier of 'schema-valid documents' (a validator sees the parsed map, the parser sees the text)",
     "the parser side is the K-serde model of C12 (see its assumptions: YAML text layer not modelled, integer literals in [2^63,2^64) at DefaultValue positions excluded)",
@@ -405,9 +405,52 @@ def binary_stream(chk, tier, seed):
     chk.cov["binary_stream"] = {"projects": r["projects"], "files_checked": r["files_checked"], "problems": len(r["problems"]),
                                 "combinations": "modelFormat x (no override | --format json|yaml|yml) x migrationFormat (cycled)"}
     tl = r.get("text_layer", {})
-    chk.cov["binary_stream"]["json_text_layer (files the loader reads: .json -> serde_json; same text through serde_yaml for contrast)"] = {k: v for k, v in tl.items() if k != "cases"}
+    tcases = [c for c in tl.get("cases", []) if c.get("gallina")]
+    text_problems = []
+    tstats = {k: v for k, v in tl.items() if k != "cases"}
+    if tcases:
+        # the expectation is formed inside Coq: schema-valid (python-jsonschema, cross-checked with the Gallina validator)
+        # AND decoded by the Gallina parser model (decode_of_valid: strictly valid + no repeated member => decodes)
+        f = os.path.join(CACHE, "c15bin_text.v")
+        src = "From VV.SERDE Require Import CorrSchema ShippedSchemas GeneratedSchemas.\n" + SH_GN
+        src += "Definition docs : list (dkind * json) := [\n" + ";\n".join("(%s, %s)" % (KINDS[c["kind"]][1], c["gallina"]) for c in tcases) + "\n].\n"
+        src += "Eval vm_compute in map (cov_bits sh) docs.\n"
+        open(f, "w").write(src)
+        rc, out, _ = coqc(f, cwd=CACHE)
+        bits = None
+        if rc == 0:
+            try:
+                bits = json.loads(vflib.parse_eval_outputs(out)[0].replace(";", ","))
+            except Exception:
+                bits = None
+        if not bits or len(bits) != len(tcases):
+            rp = vflib.write_replay(PROP, "correspondence:binary-text-layer", {"log": out[-1500:]})
+            chk.violation(rp, True)
+        else:
+            tstats.update({"model_decodes": 0, "strictly_valid (under decode_of_valid)": 0, "expected_accept (schema-valid and decoded by the model)": 0,
+                           "K-schema_mismatches (Gallina valid vs python-jsonschema)": 0, "hserde_vs_binary_disagreements": 0})
+            for c, (mv, ms, md) in zip(tcases, bits):
+                expected = bool(c["schema_valid"] and md)
+                tstats["model_decodes"] += md
+                tstats["strictly_valid (under decode_of_valid)"] += ms
+                tstats["expected_accept (schema-valid and decoded by the model)"] += expected
+                if mv != c["schema_valid"]:
+                    tstats["K-schema_mismatches (Gallina valid vs python-jsonschema)"] += 1
+                    text_problems.append(dict(c, why="K-schema: the Gallina validator says %s, python-jsonschema says %s" % (mv, c["schema_valid"])))
+                if c["serde_json"] != c["binary"]:
+                    tstats["hserde_vs_binary_disagreements"] += 1
+                    chk.notes.append("NOTE %s: hserde's serde_json parse says %s, the binary says %s" % (c["case"], c["serde_json"], c["binary"]))
+                if c["binary"] != expected:
+                    text_problems.append(dict(c, why="a .json %s file that %s is %s by the tool (%s): %s" % (
+                        "model" if c["kind"] == "table" else "migration",
+                        "validates against the shipped schema and that the parser model decodes" + (" (strictly valid: decode_of_valid applies)" if ms else "") if expected else "is schema-invalid or not decoded by the parser model",
+                        "rejected" if expected else "accepted", " / ".join(c["commands"][1:]), c.get("binary_output", ""))))
+    chk.cov["binary_stream"]["json_text_layer (files the loader reads: .json -> serde_json; same text through serde_yaml for contrast)"] = tstats
     chk.cov["evaluations"] += r["files_checked"] + tl.get("documents", 0)
     chk.cov["traces_validated_against_impl"] += r["files_checked"] + tl.get("documents", 0)
+    r["problems"] = r["problems"] + [{k: v for k, v in pr.items() if k not in ("gallina", "binary_output")} for pr in text_problems]
+    json.dump(r, open(outp, "w"), indent=1)
+    chk.cov["binary_stream"]["problems"] = len(r["problems"])
     if r["cases"]:
         chk.cov["samples"] = chk.cov.get("samples", []) + [{"kind": "binary-stream", **{k: r["cases"][5][k] for k in ("modelFormat", "new_format_override", "migrationFormat", "files")}}]
     for pr in r["problems"][:5]:
